@@ -17,6 +17,10 @@ Record consts_facts : Prop := {
           CT_PUBCOMP = 7 /\ CT_SUBSCRIBE = 8 /\ CT_SUBACK = 9 /\ CT_UNSUBSCRIBE = 10 /\ CT_UNSUBACK = 11 /\
           CT_PINGREQ = 12 /\ CT_PINGRESP = 13 /\ CT_DISCONNECT = 14;
   cf_rule_publish : forall fl, rule_violation 3 fl = 0;
+  (* behavioural pins (gen/grp_c16.py runs the real unpackers): the guards the model writes as literals *)
+  cf_pins : ACCEPTED_RL = [[2; 2]; [3; 2; 3; 4; 5]; [4; 2]; [5; 2]; [6; 2]; [7; 2]; [9; 3; 4; 5]; [11; 2]; [13; 0]] /\
+            RL_BYTES_MAX = 4 /\ CONNACK_CODE_MAX = 5 /\ CONNACK_FLAG_MAX = 1 /\
+            QOS3_RESULT = E_PUBLISH_FORBIDDEN_QOS /\ TOPIC_OVERRUN_RESULT = E_MALFORMED_RESPONSE;
 }.
 Lemma consts_ok : consts_facts.
 Proof.
